@@ -666,9 +666,9 @@ def run(c):
     c.prove()
     run_corpus(c)
     stream_update_bounds(c)
-    stream_validate(c, c.n(400, 3000))
-    stream_rows(c, c.n(80, 400))
-    stream_solved(c, c.n(80, 400))
+    stream_validate(c, c.n(400, 12000))
+    stream_rows(c, c.n(80, 1500))
+    stream_solved(c, c.n(80, 1500))
     probe_f23(c)
     probe_f27(c)
     c.exhaustive = False
